@@ -240,6 +240,22 @@ static void ares_event_thread_sockstate_cb(void *data, ares_socket_t socket_fd,
                     NULL, NULL, NULL);
 }
 
+void ares_event_thread_wake_channel(const ares_channel_t *channel)
+{
+  const ares_event_thread_t *e;
+
+  if (channel == NULL || !(channel->optmask & ARES_OPT_EVENT_THREAD)) {
+    return;
+  }
+
+  e = channel->sock_state_cb_data;
+  if (e == NULL) {
+    return;
+  }
+
+  ares_event_thread_wake(e);
+}
+
 static void notifywrite_cb(void *data)
 {
   ares_event_thread_t *e = data;
@@ -611,6 +627,11 @@ ares_status_t ares_event_thread_init(ares_channel_t *channel)
 }
 
 void ares_event_thread_destroy(ares_channel_t *channel)
+{
+  (void)channel;
+}
+
+void ares_event_thread_wake_channel(const ares_channel_t *channel)
 {
   (void)channel;
 }
